@@ -371,6 +371,37 @@ def execute(scenario, tape=None, keep_events=False):
                             probes.hit("malformed-key-refused")
                             continue
                         viols.append(Violation("malformed-key-accepted", where + f" variant={name} by={fn_name}", f"after generating/using key {k:#x}: {v.hex()} -> {out if isinstance(out, int) else bytes(out).hex()}", feats))
+    # incidental reach (NOT part of the claim, see DESIGN 9.2): differential checks of the
+    # group law on values that flowed through this history, against the reference
+    if made and sc.get("algebra", True):
+        arng = sub_rng(sc["seed"], "algebra")
+        G = (EC.GX, EC.GY)
+        a = made[0][2]
+        b = made[-1][2] if len(made) > 1 else (a * 7 + 3) % N or 1
+        A, B = EC.mul(a), EC.mul(b)
+        beta = 0x7AE96A2B657C07106E64479EAC3434E99CF0497512F58995C1396C28719501EE
+        pairs = [("A+B", A, B), ("A+A", A, A), ("A+(-A)", A, EC.neg(A)), ("O+A", None, A), ("A+endo(-A)", A, (beta * A[0] % EC.P, (-A[1]) % EC.P)), ("A+endo2(-A)", A, (beta * beta * A[0] % EC.P, (-A[1]) % EC.P))]
+        for name, p1, p2 in pairs:
+            try:
+                got = ecmath.point_add(p1, p2)
+                if (tuple(got) if got is not None else None) != EC.add(p1, p2):
+                    viols.append(Violation("group-law", f"point_add {name}", f"a={a:#x} b={b:#x}: got {got} want {EC.add(p1, p2)}", {"via": "algebra"}))
+                else:
+                    probes.hit("algebra-add-ok")
+            except Exception as e:
+                viols.append(Violation("group-law", f"point_add {name} raised", f"{type(e).__name__}: {e}"[:200], {"via": "algebra"}))
+        scalars = [0, 1, 2, N - 1, N, N + 1, N + 2, 2 * (N + 2) + 1, 3 * N + 2, 2**256 - 1, 2**256, 2**256 + 1, a + N, a * b, arng.getrandbits(300)]
+        for k in arng.sample(scalars, 4):
+            base = arng.choice([("G", G), ("B", B)])
+            try:
+                got = ecmath.point_scalar_mul(k, base[1])
+                want = EC.mul(k, base[1])
+                if (tuple(got) if got is not None else None) != want:
+                    viols.append(Violation("group-law", f"point_scalar_mul k={'n+2' if k == N + 2 else hex(k)[:20]} P={base[0]}", f"k={k:#x}: got {got} want {want}", {"via": "algebra"}))
+                else:
+                    probes.hit("algebra-mul-ok")
+            except Exception as e:
+                viols.append(Violation("group-law", f"point_scalar_mul raised k={hex(k)[:20]}", f"{type(e).__name__}: {e}"[:200], {"via": "algebra"}))
     # injectivity: distinct accepted draws -> distinct keys
     by_key = {}
     for i, acc, k in made:
